@@ -47,6 +47,8 @@ class FnSpec:
         self.vcline = None
         self.keep_generics = False
         self.vis = None
+        self.truncate_after = None
+        self.tail_expr = None
 
     def display(self):
         return self.label or self.as_name or self.name
@@ -179,6 +181,10 @@ class Unit:
                         cur.ret = arg
                     elif word == 'vis':
                         cur.vis = arg
+                    elif word == 'truncate_after':
+                        cur.truncate_after = arg.strip()
+                    elif word == 'tail':
+                        cur.tail_expr = arg.strip()
                     elif word == 'panic_frame':
                         cur.panic_frame = True
                     elif word == 'optional':
@@ -361,6 +367,18 @@ def assemble(unit, index, expanded_name='expanded.rs', probe=None, lenient=False
         text = index.src[f.sig_start:f.body_end]
         try:
             text = rw.strip_comments_and_attrs(text, fired)
+            if fs.truncate_after:
+                # R12 (prefix extraction): the body is cut after the first match of the declared pattern; what follows in the
+                # real function is NOT under contract; the declared tail expression returns the state reached so far
+                pat = fs.truncate_after
+                if pat.startswith('/') and pat.endswith('/'):
+                    pat = pat[1:-1]
+                mt = re.search(pat, text, re.S)
+                if not mt:
+                    raise ExtractError('%s: truncate_after pattern not found (lost anchor)' % fs.display())
+                dropped = text[mt.end():]
+                text = text[:mt.end()] + '\n' * dropped.count('\n') + ' ' + (fs.tail_expr or '') + ' }'
+                fired['R12'] = fired.get('R12', 0) + 1
             text = rw.rule_r4_panics(text, fired)
             text = rw.rule_r4_assert_eq(text, fired)
             text = rw.rule_r4p_debug(text, fired)
